@@ -319,3 +319,368 @@ Proof.
         -- eapply Forall_impl; [|exact I2]. intros k [K1 K2]. split; [|exact K2].
            apply (lo_ok_widen lo (Some s)); [apply lo_lt_le; exact Hs1|exact K1].
 Qed.
+Theorem bt_elems_sorted lo hi t :
+  WF_bt lo hi t ->
+  sorted_keys (bt_keys t) /\
+  Forall (fun k => kt_wf k = true) (bt_keys t) /\
+  Forall entry_ok (bt_elems t) /\
+  Forall (in_bnd lo hi) (bt_keys t).
+Proof.
+  induction 1 as [lo hi l Hl Hb|lo hi id ver keys ch Hn Hlen Hs Hw Hsb Hc IH Hne].
+  - unfold bt_keys. cbn [bt_elems]. fold (leaf_keys l).
+    split; [apply Hl|]. split; [apply WF_leaf_keys_wf; exact Hl|]. split; [apply Hl|exact Hb].
+  - assert (bt_keys (BInt id ver keys ch) = flat_map bt_keys ch) as E.
+    { unfold bt_keys. cbn [bt_elems]. clear. induction ch as [|c ch I]; [reflexivity|].
+      cbn [flat_map]. rewrite map_app, I. reflexivity. }
+    rewrite E.
+    destruct (flat_keys_sorted bt_keys ch lo hi keys Hlen Hs Hsb) as [S1 S2].
+    { intros i Hi. destruct (IH i Hi) as (A & _ & _ & B). split; assumption. }
+    split; [exact S1|]. split; [|split; [|exact S2]].
+    + apply Forall_forall. intros k Hk. apply (in_flat_map_nth bt_keys dbt) in Hk.
+      destruct Hk as (i & Hi & Hk). destruct (IH i Hi) as (_ & A & _).
+      rewrite Forall_forall in A. apply A. exact Hk.
+    + cbn [bt_elems]. apply Forall_forall. intros s Hs'.
+      apply (in_flat_map_nth bt_elems dbt) in Hs'.
+      destruct Hs' as (i & Hi & Hk). destruct (IH i Hi) as (_ & _ & A & _).
+      rewrite Forall_forall in A. apply A. exact Hk.
+Qed.
+
+Corollary WF_bt_sorted lo hi t : WF_bt lo hi t -> sorted_keys (bt_keys t).
+Proof. intros H. apply (bt_elems_sorted lo hi t H). Qed.
+Corollary WF_bt_keys_wf lo hi t : WF_bt lo hi t -> Forall (fun k => kt_wf k = true) (bt_keys t).
+Proof. intros H. apply (bt_elems_sorted lo hi t H). Qed.
+Corollary WF_bt_entries_ok lo hi t : WF_bt lo hi t -> Forall entry_ok (bt_elems t).
+Proof. intros H. apply (bt_elems_sorted lo hi t H). Qed.
+Corollary WF_bt_keys_bnd lo hi t : WF_bt lo hi t -> Forall (in_bnd lo hi) (bt_keys t).
+Proof. intros H. apply (bt_elems_sorted lo hi t H). Qed.
+Corollary WF_bt_keys_NoDup lo hi t : WF_bt lo hi t -> NoDup (bt_keys t).
+Proof. intros H. apply sorted_NoDup. apply (WF_bt_sorted lo hi t H). Qed.
+
+Lemma in_elems_in_keys t s : In s (bt_elems t) -> In (sl_key s) (bt_keys t).
+Proof. intros H. unfold bt_keys. apply in_map. exact H. Qed.
+
+Lemma in_keys_in_elems t k : In k (bt_keys t) -> exists s, In s (bt_elems t) /\ sl_key s = k.
+Proof.
+  unfold bt_keys. intros H. apply in_map_iff in H. destruct H as (s & E & H). exists s. split; assumption.
+Qed.
+
+(** entries with the same key are the same entry *)
+Lemma map_NoDup_inj {A B} (f : A -> B) l a b :
+  NoDup (map f l) -> In a l -> In b l -> f a = f b -> a = b.
+Proof.
+  induction l as [|x l IH]; intros Hnd Ha Hb E; [destruct Ha|].
+  cbn [map] in Hnd. apply NoDup_cons_iff in Hnd. destruct Hnd as [Hx Hnd].
+  destruct Ha as [->|Ha], Hb as [->|Hb].
+  - reflexivity.
+  - exfalso. apply Hx. rewrite E. apply in_map. exact Hb.
+  - exfalso. apply Hx. rewrite <- E. apply in_map. exact Ha.
+  - apply IH; assumption.
+Qed.
+
+Lemma WF_bt_key_inj lo hi t a b :
+  WF_bt lo hi t -> In a (bt_elems t) -> In b (bt_elems t) -> sl_key a = sl_key b -> a = b.
+Proof. intros H. apply map_NoDup_inj. apply (WF_bt_keys_NoDup lo hi t H). Qed.
+
+(** sorted lists are determined by their contents *)
+Lemma sorted_perm_eq (l1 l2 : list slot_t) :
+  sorted_keys (map sl_key l1) -> sorted_keys (map sl_key l2) -> Permutation l1 l2 -> l1 = l2.
+Proof.
+  revert l2. induction l1 as [|a l1 IH]; intros l2 H1 H2 HP.
+  - apply Permutation_nil in HP. subst. reflexivity.
+  - destruct l2 as [|b l2]; [apply Permutation_sym, Permutation_nil in HP; discriminate|].
+    cbn [map] in H1, H2. apply sorted_cons_iff in H1, H2.
+    destruct H1 as [S1 F1], H2 as [S2 F2]. rewrite Forall_forall in F1, F2.
+    assert (a = b) as ->.
+    { assert (In a (b :: l2)) as Ha by (eapply Permutation_in; [exact HP|left; reflexivity]).
+      assert (In b (a :: l1)) as Hb
+        by (eapply Permutation_in; [apply Permutation_sym; exact HP|left; reflexivity]).
+      destruct Ha as [->|Ha]; [reflexivity|]. destruct Hb as [->|Hb]; [reflexivity|].
+      specialize (F2 _ (in_map sl_key _ _ Ha)). specialize (F1 _ (in_map sl_key _ _ Hb)).
+      apply canon_lt_asym in F1. congruence. }
+    f_equal. apply IH; [exact S1|exact S2|]. eapply Permutation_cons_inv. exact HP.
+Qed.
+
+(** ** 7. leaves *)
+Lemma bt_leaves_elems t : flat_map leaf_entries (bt_leaves t) = bt_elems t.
+Proof.
+  induction t as [l|id ver keys ch IH] using bt_ind'.
+  - cbn. apply app_nil_r.
+  - cbn [bt_leaves bt_elems]. induction IH as [|c ch Hc _ IH2]; [reflexivity|].
+    cbn [flat_map]. rewrite flat_map_app, Hc, IH2. reflexivity.
+Qed.
+
+Lemma bt_leaves_ids_incl t l : In l (bt_leaves t) -> In (lf_id l) (bt_ids t).
+Proof.
+  induction t as [l0|id ver keys ch IH] using bt_ind'.
+  - cbn. intros [->|[]]. left. reflexivity.
+  - cbn [bt_leaves bt_ids]. intros H. right. rewrite in_flat_map in *.
+    destruct H as (c & Hc & H). exists c. split; [exact Hc|].
+    rewrite Forall_forall in IH. apply IH; assumption.
+Qed.
+
+Lemma bt_leaves_WF lo hi t : WF_bt lo hi t -> forall l, In l (bt_leaves t) -> WF_leaf l.
+Proof.
+  induction 1 as [lo hi l Hl Hb|lo hi id ver keys ch Hn Hlen Hs Hw Hsb Hc IH Hne]; intros l' Hin.
+  - cbn in Hin. destruct Hin as [<-|[]]. exact Hl.
+  - cbn [bt_leaves] in Hin. apply (in_flat_map_nth bt_leaves dbt) in Hin.
+    destruct Hin as (i & Hi & Hin). apply (IH i Hi). exact Hin.
+Qed.
+
+Lemma bt_leaves_nonempty lo hi t :
+  WF_bt lo hi t -> bt_elems t <> [] -> forall l, In l (bt_leaves t) -> leaf_entries l <> [].
+Proof.
+  induction 1 as [lo hi l Hl Hb|lo hi id ver keys ch Hn Hlen Hs Hw Hsb Hc IH Hne]; intros Hnn l' Hin.
+  - cbn in Hin. destruct Hin as [<-|[]]. exact Hnn.
+  - cbn [bt_leaves] in Hin. apply (in_flat_map_nth bt_leaves dbt) in Hin.
+    destruct Hin as (i & Hi & Hin). apply (IH i Hi); [apply Hne; exact Hi|exact Hin].
+Qed.
+
+(** every leaf is non-empty, except possibly a root leaf *)
+Lemma bt_leaves_nonempty_root lo hi t :
+  WF_bt lo hi t -> forall l, In l (bt_leaves t) -> leaf_entries l <> [] \/ t = BLeaf l.
+Proof.
+  intros H l Hin. destruct t as [l0|id ver keys ch].
+  - right. cbn in Hin. destruct Hin as [->|[]]. reflexivity.
+  - left. apply WF_int_iff in H. destruct H as (_ & _ & _ & _ & _ & Hc & Hne).
+    cbn [bt_leaves] in Hin. apply (in_flat_map_nth bt_leaves dbt) in Hin.
+    destruct Hin as (i & Hi & Hin).
+    eapply bt_leaves_nonempty; [apply Hc; exact Hi|apply Hne; exact Hi|exact Hin].
+Qed.
+
+Lemma bt_leaves_not_nil t lo hi : WF_bt lo hi t -> bt_leaves t <> [].
+Proof.
+  induction 1 as [lo hi l Hl Hb|lo hi id ver keys ch Hn Hlen Hs Hw Hsb Hc IH Hne].
+  - discriminate.
+  - cbn [bt_leaves]. destruct ch as [|c ch]; [cbn in Hlen; lia|]. cbn [flat_map].
+    specialize (IH 0%nat ltac:(cbn; lia)). cbn [nth] in IH.
+    destruct (bt_leaves c); [contradiction|discriminate].
+Qed.
+(** ** routing: the first separator greater than the key *)
+Definition is_pos (keys : list ktuple) (k : ktuple) (i : nat) : Prop :=
+  (i <= length keys)%nat /\
+  (forall j, (j < i)%nat -> canon_lt k (nth j keys dk) = false) /\
+  ((i < length keys)%nat -> canon_lt k (nth i keys dk) = true).
+
+Lemma is_pos_unique keys k i p : is_pos keys k i -> is_pos keys k p -> i = p.
+Proof.
+  intros (A1 & A2 & A3) (B1 & B2 & B3).
+  destruct (Nat.lt_trichotomy i p) as [H|[H|H]]; [|exact H|].
+  - specialize (B2 i H). rewrite A3 in B2 by lia. discriminate.
+  - specialize (A2 p H). rewrite B3 in A2 by lia. discriminate.
+Qed.
+
+Lemma is_pos_cons_true s keys k : canon_lt k s = true -> is_pos (s :: keys) k 0.
+Proof.
+  intros H. split; [lia|]. split; [intros j Hj; lia|]. intros _. exact H.
+Qed.
+
+Lemma is_pos_cons_false s keys k p :
+  canon_lt k s = false -> is_pos keys k p -> is_pos (s :: keys) k (S p).
+Proof.
+  intros H (A1 & A2 & A3). split; [cbn [length]; lia|]. split.
+  - intros [|j] Hj; cbn [nth]; [exact H|apply A2; lia].
+  - cbn [length nth]. intros Hp. apply A3. lia.
+Qed.
+
+Lemma route_S keys k : forall n, route keys k (S n) = S (route keys k n).
+Proof.
+  induction keys as [|s keys IH]; intros n; cbn [route]; [reflexivity|].
+  destruct (route_probe k s); [reflexivity|apply IH].
+Qed.
+Lemma iins_pos_S keys k : forall n, iins_pos keys k (S n) = S (iins_pos keys k n).
+Proof.
+  induction keys as [|s keys IH]; intros n; cbn [iins_pos]; [reflexivity|].
+  destruct (iins_probe k s); [reflexivity|apply IH].
+Qed.
+
+Lemma route_is_pos keys k :
+  Forall (fun s => kt_wf s = true) keys -> kt_wf k = true -> is_pos keys k (route keys k 0).
+Proof.
+  intros Hw Hk. induction Hw as [|s keys Hs Hw IH].
+  - split; [cbn; lia|]. split; [intros j Hj; cbn in Hj; lia|cbn; intros Hj; lia].
+  - cbn [route]. rewrite (route_probe_site k s Hk Hs).
+    destruct (canon_lt k s) eqn:E.
+    + apply is_pos_cons_true. exact E.
+    + rewrite route_S. apply is_pos_cons_false; assumption.
+Qed.
+
+Lemma iins_pos_is_pos keys k :
+  Forall (fun s => kt_wf s = true) keys -> kt_wf k = true -> is_pos keys k (iins_pos keys k 0).
+Proof.
+  intros Hw Hk. induction Hw as [|s keys Hs Hw IH].
+  - split; [cbn; lia|]. split; [intros j Hj; cbn in Hj; lia|cbn; intros Hj; lia].
+  - cbn [iins_pos]. rewrite (iins_probe_site k s Hk Hs).
+    destruct (canon_lt k s) eqn:E.
+    + apply is_pos_cons_true. exact E.
+    + rewrite iins_pos_S. apply is_pos_cons_false; assumption.
+Qed.
+
+Lemma is_pos_firstn keys k i n : is_pos keys k i -> (i <= n)%nat -> is_pos (firstn n keys) k i.
+Proof.
+  intros (A1 & A2 & A3) Hn. unfold is_pos. rewrite firstn_length. split; [lia|]. split.
+  - intros j Hj. rewrite nth_firstn. destruct (Nat.ltb_spec j n); [|lia]. apply A2. exact Hj.
+  - intros Hi. rewrite nth_firstn. destruct (Nat.ltb_spec i n); [|lia]. apply A3. lia.
+Qed.
+
+Lemma is_pos_skipn keys k i n : is_pos keys k i -> (n <= i)%nat -> is_pos (skipn n keys) k (i - n).
+Proof.
+  intros (A1 & A2 & A3) Hn. unfold is_pos. rewrite skipn_length. split; [lia|]. split.
+  - intros j Hj. rewrite nth_skipn. apply A2. lia.
+  - intros Hi. rewrite nth_skipn. replace (n + (i - n))%nat with i by lia. apply A3. lia.
+Qed.
+
+(** a key within the bounds of child [i] is routed to child [i] *)
+Lemma is_pos_of_bounds lo hi keys k i :
+  sorted_keys keys -> (i <= length keys)%nat ->
+  lo_ok (lo_at lo keys i) k -> hi_ok (hi_at hi keys i) k -> is_pos keys k i.
+Proof.
+  intros Hs Hi Hlo Hhi. split; [exact Hi|]. split.
+  - intros j Hj. destruct i as [|i]; [lia|]. cbn [lo_at lo_ok] in Hlo.
+    eapply canon_le_trans; [|exact Hlo]. apply sorted_nth_le; [exact Hs|lia|lia].
+  - intros Hlt. unfold hi_at in Hhi. destruct (Nat.ltb_spec i (length keys)); [|lia]. exact Hhi.
+Qed.
+
+Lemma is_pos_bounds lo hi keys k i :
+  is_pos keys k i -> in_bnd lo hi k -> in_bnd (lo_at lo keys i) (hi_at hi keys i) k.
+Proof.
+  intros (A1 & A2 & A3) [B1 B2]. split.
+  - destruct i as [|i]; cbn [lo_at]; [exact B1|]. cbn. apply A2. lia.
+  - unfold hi_at. destruct (Nat.ltb_spec i (length keys)); [|exact B2]. cbn. apply A3. assumption.
+Qed.
+
+(** separators strictly inside child [i]'s bounds are inserted at position [i] *)
+Lemma sep_is_pos lo hi keys k i :
+  sorted_keys keys -> (i <= length keys)%nat ->
+  sep_bnd (lo_at lo keys i) (hi_at hi keys i) k -> is_pos keys k i.
+Proof.
+  intros Hs Hi [H1 H2]. eapply is_pos_of_bounds; try eassumption. apply lo_lt_ok. exact H1.
+Qed.
+
+(** an element of an interior node with key [k] lives in the child [k] is routed to *)
+Lemma kids_route lo hi keys ch k :
+  kids_ok lo hi keys ch -> kt_wf k = true ->
+  (route keys k 0 < length ch)%nat /\
+  (in_bnd lo hi k ->
+   in_bnd (lo_at lo keys (route keys k 0)) (hi_at hi keys (route keys k 0)) k) /\
+  forall s, In s (flat_map bt_elems ch) -> sl_key s = k ->
+            In s (bt_elems (nth (route keys k 0) ch dbt)).
+Proof.
+  intros (Hlen & Hs & Hw & Hsb & Hc & Hne) Hk.
+  pose proof (route_is_pos keys k Hw Hk) as Hp.
+  split; [destruct Hp as (P1 & _); lia|]. split; [apply is_pos_bounds; exact Hp|].
+  intros s Hin Hsk. apply (in_flat_map_nth bt_elems dbt) in Hin. destruct Hin as (j & Hj & Hin).
+  assert (is_pos keys k j) as Hpj.
+  { pose proof (WF_bt_keys_bnd _ _ _ (Hc j Hj)) as B. rewrite Forall_forall in B.
+    destruct (B k) as [B1 B2]; [rewrite <- Hsk; apply in_elems_in_keys; exact Hin|].
+    eapply is_pos_of_bounds; try eassumption. lia. }
+  rewrite (is_pos_unique keys k _ _ Hp Hpj). exact Hin.
+Qed.
+
+(** ** 2. find_leaf and lookup *)
+Lemma bt_find_leaf_spec fuel : forall t lo hi k,
+  WF_bt lo hi t -> kt_wf k = true -> (bt_height t < fuel)%nat ->
+  exists l, bt_find_leaf fuel t k = Some l /\ WF_leaf l /\ In l (bt_leaves t) /\
+            (forall s, In s (bt_elems t) -> sl_key s = k -> In s (leaf_entries l)) /\
+            (forall s, In s (leaf_entries l) -> In s (bt_elems t)).
+Proof.
+  induction fuel as [|f IH]; intros t lo hi k Hwf Hk Hh; [lia|].
+  destruct t as [l|id ver keys ch]; cbn [bt_find_leaf].
+  - apply WF_leaf_iff in Hwf. exists l. split; [reflexivity|]. split; [apply Hwf|].
+    split; [left; reflexivity|]. split; auto.
+  - apply WF_int_iff in Hwf. destruct Hwf as [Hn Hkids].
+    destruct (kids_route lo hi keys ch k Hkids Hk) as (Hi & _ & Hroute).
+    set (i := route keys k 0) in *.
+    destruct Hkids as (Hlen & Hs & Hw & Hsb & Hc & Hne).
+    rewrite (nth_error_child ch i Hi).
+    destruct (IH (nth i ch dbt) _ _ k (Hc i Hi) Hk) as (l & E & Hl & Hin & H1 & H2).
+    { pose proof (height_child id ver keys ch i Hi). lia. }
+    exists l. split; [exact E|]. split; [exact Hl|]. split; [|split].
+    + cbn [bt_leaves]. apply (in_flat_map_nth bt_leaves dbt). exists i. split; assumption.
+    + intros s Hs1 Hs2. apply H1; [|exact Hs2]. apply Hroute; assumption.
+    + intros s Hs1. cbn [bt_elems]. apply (in_flat_map_nth bt_elems dbt). exists i.
+      split; [exact Hi|apply H2; exact Hs1].
+Qed.
+
+Theorem find_leaf_spec root k :
+  WF_bt None None root -> kt_wf k = true ->
+  exists l, find_leaf root k = Some l /\ WF_leaf l /\ In l (bt_leaves root) /\
+            (forall s, In s (bt_elems root) -> sl_key s = k -> In s (leaf_entries l)) /\
+            (forall s, In s (leaf_entries l) -> In s (bt_elems root)).
+Proof. intros H Hk. unfold find_leaf. eapply bt_find_leaf_spec; try eassumption. lia. Qed.
+
+(** the fuel does not matter *)
+Lemma bt_find_leaf_fuel fuel fuel' t lo hi k :
+  WF_bt lo hi t -> kt_wf k = true -> (bt_height t < fuel)%nat -> (bt_height t < fuel')%nat ->
+  bt_find_leaf fuel t k = bt_find_leaf fuel' t k.
+Proof.
+  revert fuel' t lo hi. induction fuel as [|f IH]; intros fuel' t lo hi Hwf Hk H1 H2; [lia|].
+  destruct fuel' as [|f']; [lia|].
+  destruct t as [l|id ver keys ch]; cbn [bt_find_leaf]; [reflexivity|].
+  apply WF_int_iff in Hwf. destruct Hwf as [Hn Hkids].
+  destruct (kids_route lo hi keys ch k Hkids Hk) as (Hi & _).
+  destruct Hkids as (_ & _ & _ & _ & Hc & _).
+  rewrite (nth_error_child ch _ Hi).
+  pose proof (height_child id ver keys ch _ Hi).
+  eapply IH; [apply Hc; exact Hi|exact Hk|lia|lia].
+Qed.
+
+Definition layer_lookup (root : bt) (k : ktuple) : option slot_t :=
+  match find_leaf root k with
+  | Some l => option_map (fun x => snd x) (leaf_lookup l k)
+  | None => None
+  end.
+
+Lemma leaf_lookup_entry l k r slot s :
+  WF_leaf l -> kt_wf k = true -> leaf_lookup l k = Some (r, slot, s) ->
+  In s (leaf_entries l) /\ sl_key s = k /\ nth_error (leaf_entries l) r = Some s.
+Proof.
+  intros Hl Hk E. destruct (leaf_lookup_some l k r slot s Hl Hk E) as [H1 H2].
+  pose proof (leaf_ranked_entries l r slot s H1) as H3.
+  split; [eapply nth_error_In; exact H3|]. split; assumption.
+Qed.
+
+Theorem layer_lookup_some root k s :
+  WF_bt None None root -> kt_wf k = true ->
+  (layer_lookup root k = Some s <-> In s (bt_elems root) /\ sl_key s = k).
+Proof.
+  intros Hwf Hk. unfold layer_lookup.
+  destruct (find_leaf_spec root k Hwf Hk) as (l & -> & Hl & _ & H1 & H2). split.
+  - destruct (leaf_lookup l k) as [[[r slot] s']|] eqn:E; [|discriminate].
+    cbn. intros H. injection H as ->.
+    destruct (leaf_lookup_entry l k r slot s Hl Hk E) as (A & B & _).
+    split; [apply H2; exact A|exact B].
+  - intros [Hin Hs]. pose proof (H1 s Hin Hs) as Hin'.
+    destruct (leaf_lookup_in l k Hl Hk) as (r & slot & s' & E & _ & Hs' & _).
+    { rewrite <- Hs. unfold leaf_keys. apply in_map. exact Hin'. }
+    rewrite E. cbn. f_equal.
+    destruct (leaf_lookup_entry l k r slot s' Hl Hk E) as (A & _).
+    eapply (WF_bt_key_inj None None root); [exact Hwf|apply H2; exact A|exact Hin|congruence].
+Qed.
+
+Theorem layer_lookup_none root k :
+  WF_bt None None root -> kt_wf k = true ->
+  (layer_lookup root k = None <-> ~ In k (bt_keys root)).
+Proof.
+  intros Hwf Hk. split.
+  - intros E Hin. apply in_keys_in_elems in Hin. destruct Hin as (s & Hin & Hs).
+    assert (layer_lookup root k = Some s) as E' by (apply layer_lookup_some; auto).
+    congruence.
+  - intros Hn. destruct (layer_lookup root k) as [s|] eqn:E; [|reflexivity].
+    apply layer_lookup_some in E; [|exact Hwf|exact Hk]. destruct E as [Hin Hs].
+    exfalso. apply Hn. rewrite <- Hs. apply in_elems_in_keys. exact Hin.
+Qed.
+
+(** the leaf found holds the key iff the layer does *)
+Lemma find_leaf_lookup root k l :
+  WF_bt None None root -> kt_wf k = true -> find_leaf root k = Some l ->
+  (leaf_lookup l k = None <-> ~ In k (bt_keys root)) /\
+  (forall r slot s, leaf_lookup l k = Some (r, slot, s) ->
+     In s (bt_elems root) /\ sl_key s = k /\ nth_error (leaf_entries l) r = Some s).
+Proof.
+  intros Hwf Hk E. pose proof (layer_lookup_none root k Hwf Hk) as HN.
+  destruct (find_leaf_spec root k Hwf Hk) as (l' & E' & Hl & _ & H1 & H2).
+  rewrite E in E'. injection E' as <-. unfold layer_lookup in HN. rewrite E in HN. split.
+  - rewrite <- HN. destruct (leaf_lookup l k); cbn; split; congruence.
+  - intros r slot s Hs. destruct (leaf_lookup_entry l k r slot s Hl Hk Hs) as (A & B & C).
+    split; [apply H2; exact A|]. split; assumption.
+Qed.
